@@ -271,7 +271,7 @@ static void case_ls(vh::Ctx & c, vh::Rng & r, bool is_float)
     int n = (int)r.range(m, r.coin() ? m + 10 : 200);
     if (r.coin(0.08)) {static const int SZ[] = {64, 128, 256, 512, 1024, 2048, 3072, 4096}; n = SZ[r.range(0, 7)]; c.cat("c_block_boundary_size");}
     if (k > 0 && r.coin(0.3)) {n = prev_n;}
-    LD kap = m == 1 ? 1 : (LD)r.logu(1.0, is_float ? 30.0 : 999.0), sc = r.coin(0.3) ? 1.0 : r.logu(1e-4, 1e4);
+    LD kap = m == 1 ? 1 : (LD)r.logu(1.0, is_float ? 30.0 : 999.0), sc = r.coin(0.3) ? 1.0 : r.logu(1e-6, 1e6);
     MatL A0(n, m); for (int i = 0; i < n; ++i) {for (int j = 0; j < m; ++j) {A0(i, j) = r.normal();}}
     Eigen::JacobiSVD<MatL> sv0(A0, Eigen::ComputeThinU | Eigen::ComputeThinV);
     VecL s(m); for (int i = 0; i < m; ++i) {s(i) = sc * (i == 0 ? 1 : i == m - 1 ? 1 / kap : (LD)r.logu((double)(1 / kap), 1.0));}
